@@ -3,7 +3,8 @@
 seqex: complete enumeration of exception classes (builtin, OSError with errno, UnicodeDecodeError, custom with extra
 attribute, custom with keyword-only __init__ + __reduce__, BaseException subclass, with __cause__, with __context__)
 x raise depth {1, 2, 4} x number of pickle hops {1, 2, 3} x per-hop mode {forward the object, re-raise it and wrap again}
-x nesting {plain, member 0 / 1 of an EnsembleError, fail_fast or not}.  Each case builds the exception by really raising it
+x nesting {plain, member 0 / 1 / 2 of an EnsembleError, fail_fast or not (incl. the fail-fast shapes where the failing
+member is not among the first n slots)}.  Each case builds the exception by really raising it
 through `depth` frames, wraps it with the real RemoteException and sends it through real pickle.dumps/loads hops.
 Oracle: class and args preserved, is_remote_exception true, get_remote_traceback contains the originally formatted
 traceback (identical text on forward-only chains), nested ensemble members likewise.
@@ -146,7 +147,7 @@ class HopsH(Harness):
             for depth in (1, 2, 4):
                 for hops in range(1, cfg['maxhops'] + 1):
                     for modes in itertools.product(('forward', 'reraise'), repeat=hops - 1):
-                        for nesting in ('plain', 'ens0', 'ens1', 'ens0_nofail', 'ens_both'):
+                        for nesting in ('plain', 'ens0', 'ens1', 'ens0_nofail', 'ens_both', 'ens_ff_mid', 'ens_ff_last'):
                             yield [kind, depth, list(modes), nesting]
 
     def run_case(self, cfg, case):
@@ -167,6 +168,11 @@ class HopsH(Harness):
                     z = {'y': [('A', 1), RemoteException(e)], 'n': 2}
                 elif nesting == 'ens0_nofail':
                     z = {'y': [RemoteException(e), RemoteException(other)], 'n': 2}
+                elif nesting == 'ens_ff_mid':
+                    # fail-fast shapes: `n` counts the members that have reported, it is not a prefix length
+                    z = {'y': [None, RemoteException(e), None], 'n': 1}
+                elif nesting == 'ens_ff_last':
+                    z = {'y': [None, None, RemoteException(e)], 'n': 1}
                 else:
                     z = {'y': [RemoteException(other), RemoteException(e)], 'n': 2}
                 try:
@@ -188,7 +194,7 @@ class HopsH(Harness):
             if type(got).__name__ != 'EnsembleError' or not is_remote_exception(got):
                 v = ('ensemble-error-lost', f'{label}: received {got!r}')
             else:
-                idx = 0 if nesting in ('ens0', 'ens0_nofail') else 1
+                idx = {'ens0': 0, 'ens0_nofail': 0, 'ens_ff_last': 2}.get(nesting, 1)
                 ys = got.args[1]['y']
                 member = ys[idx]
                 if isinstance(member, RemoteException):
@@ -199,7 +205,7 @@ class HopsH(Harness):
                     v = check_one(orig, orig_tb, member, modes, label)
                 if v is None and nesting == 'ens1' and ys[0] != ('A', 1):
                     v = ('ensemble-member-lost', f'{label}: healthy member changed: {ys[0]!r}')
-                if v is None and got.args[1]['n'] != (1 if nesting == 'ens0' else 2):
+                if v is None and got.args[1]['n'] != (1 if nesting in ('ens0', 'ens_ff_mid', 'ens_ff_last') else 2):
                     v = ('ensemble-count-lost', f'{label}: n = {got.args[1]["n"]}')
         return (f'{type(got).__name__}', v, len(modes) > 0 or nesting != 'plain')
 
